@@ -643,6 +643,72 @@ class Exporter:
         evs.sort(key=lambda x: x["pos"])
         return evs
 
+    def array_events(self, vlocal):
+        """Emission events of a fixed-size byte array `[u8; N]` that is filled by positioned stores
+        (`out[a..b].copy_from_slice(&x.to_be_bytes())`, `out[i] = x`) and then handed out: the stores, ordered by
+        offset, provided they tile [0, N) exactly, each happens once (not in a loop, not under a condition)."""
+        b = self.b
+        m = re.match(r"^\[u8; (\d+)\]$", b.local_ty(vlocal))
+        if not m:
+            return None
+        n = int(m.group(1))
+        stores = []
+
+        def bad(why, blk=0):
+            return [{"pos": 0, "block": blk, "loop": (), "cond": (), "content": ("unknown", why)}]
+        for blk, t, c in b.calls():
+            if c is None or not c.npath.endswith("<impl [T]>::copy_from_slice") or len(t["args"]) != 2:
+                continue
+            dst = peel(self.an.op(b, t["args"][0]), mutlocal=False)
+            while dst[0] in ("ref", "deref"):
+                dst = peel(dst[1], mutlocal=False)
+            if not (dst[0] == "call" and dst[2] is not None and dst[2].npath.endswith("::index_mut") and len(dst[3]) == 2):
+                continue
+            base = peel(dst[3][0], mutlocal=False)
+            while base[0] in ("ref", "deref"):
+                base = peel(base[1], mutlocal=False)
+            if not (base[0] == "mutlocal" and base[1] == vlocal):
+                continue
+            rng = peel(dst[3][1])
+            if not (rng[0] == "agg" and str(rng[1]).endswith("ops::Range") and len(rng[3]) == 2):
+                return bad("array written through a non-constant range", blk)
+            lo, hi = const_eval(peel(rng[3][0], widen=True)), const_eval(peel(rng[3][1], widen=True))
+            if not (lo and hi and len(lo) == 1 and len(hi) == 1):
+                return bad("array written through a non-constant range", blk)
+            lo, hi = next(iter(lo)), next(iter(hi))
+            if self.loopctx(blk) or self.condctx(blk):
+                return bad("array store inside a loop / condition", blk)
+            stores.append((lo, hi - lo, blk, self.content(self.an.op(b, t["args"][1]))))
+        for blk, i, st in b.stmts():
+            if st["k"] == "assign" and st["place"]["l"] == vlocal and st["place"].get("p"):
+                pr = st["place"]["p"]
+                if len(pr) != 1 or pr[0]["k"] not in ("index", "constant_index"):
+                    return bad("array written through %s" % [x["k"] for x in pr], blk)
+                if pr[0]["k"] == "index":
+                    iv = const_eval(peel(self.an.local(b, pr[0]["l"]), widen=True))
+                else:
+                    iv = {pr[0].get("offset")}
+                if not iv or len(iv) != 1 or None in iv:
+                    return bad("array element store at a non-constant index", blk)
+                if self.loopctx(blk) or self.condctx(blk):
+                    return bad("array store inside a loop / condition", blk)
+                op = st["rv"].get("op") if st["rv"]["k"] == "use" else None
+                cont = ("atom", self.path_of(self.an.op(b, op)), 1, "push") if op is not None else ("unknown", "array element computed by %s" % st["rv"]["k"])
+                stores.append((next(iter(iv)), 1, blk, cont))
+        stores.sort(key=lambda x: x[0])
+        pos = 0
+        evs = []
+        for off, w, blk, cont in stores:
+            if off != pos:
+                return bad("array stores do not tile the array: offset %d follows %d" % (off, pos), blk)
+            if cont[0] == "atom" and cont[2] is not None and cont[2] != w:
+                return bad("a %d-byte value is stored into a %d-byte range at offset %d" % (cont[2], w, off), blk)
+            pos = off + w
+            evs.append({"pos": len(evs), "block": blk, "loop": (), "cond": (), "content": cont})
+        if pos != n:
+            return bad("array stores cover %d of %d bytes" % (pos, n))
+        return evs
+
     def _fresh_ctor(self, c):
         """A crate constructor of a buffer wrapper whose Vec<u8> starts empty (`BeWriter::new()`)."""
         hb = self.prog.bodies.get(c.path)
@@ -703,7 +769,9 @@ class Exporter:
                     return None
                 evs = [{"loop": (), "cond": (), "content": c}]
             else:
-                evs = self.events(rl)
+                evs = self.array_events(rl) if isinstance(rl, int) and self.b.local_ty(rl).startswith("[u8; ") else None
+                if evs is None:
+                    evs = self.events(rl)
         out = []
         for ev in evs:
             c = ev["content"]
